@@ -631,10 +631,85 @@ def _global_rmse(rc: RuleCtx):
         res.violation("U6", mod, fi.name, fi.node, "global RMSE is not sqrt(sum of segment SSE / len(points))", _short(val), _short(want), construct="rmse final")
 
 
+def _mip_by_value(rc: RuleCtx, fi) -> bool:
+    """U6 decided on the value of the whole function: (median(IP), median(|IP - median(IP)|)) with IP an array of len(reduced) - 2
+    values whose element j is rmse(reduced without breakpoint j+1) - rmse(reduced).  True when decided (either way); False
+    when the function does not evaluate to that shape (the loop-shaped reading below is used instead)."""
+    from .. import elem
+    res = rc.res
+    ev = rc.new_eval()
+    ev.summarise_loops = True
+    ev.no_inline |= {"evaluation.compute_global_rmse"}
+    pts = ev.point("points", True)
+    red = ev.symbol("reduced", True)
+    ev.len_map = {"points": sym("n"), "reduced": sym("R")}
+    try:
+        val = ev.eval_function(fi, {"points": pts, "reduced": red}).value()
+    except (Unsupported, AnalysisError):
+        return False
+    if not (isinstance(val, Vec) and len(val.items) == 2 and all(isinstance(i, Rat) for i in val.items)):
+        return False
+    m0 = single_atom(val.items[0])
+    if m0 is None or m0.name != "median" or len(m0.args) != 1:
+        return False
+    X = m0.args[0]
+    xa = single_atom(X)
+    IP = ev.vec_registry.get(xa.skey) if (xa is not None and xa.name == "vec") else X
+    j = sym("j")
+    anf.declare_integer(j)
+    try:
+        got, ln = elem.element_of_value(ev, IP, j)
+    except elem.NoElement:
+        return False
+    if any("@after" in s_ or "#" in s_ for s_ in got.symbols()):
+        return False
+
+    def is_rmse(a, red_arg) -> bool:
+        names = list(a.extra or ())
+        return a.kind == "fn" and a.name == "call:evaluation.compute_global_rmse" and "points" in names and "reduced" in names \
+            and a.args[names.index("points")].equals(ev.to_rat(pts)) and a.args[names.index("reduced")].equals(red_arg)
+    calls = [a for a in got.atoms() if a.kind == "fn" and a.name == "call:evaluation.compute_global_rmse"]
+    fin = [a for a in calls if is_rmse(a, red)]
+    ref = []
+    for a in calls:
+        names = list(a.extra or ())
+        ra = single_atom(a.args[names.index("reduced")]) if "reduced" in names else None
+        if ra is not None and ra.name == "np.delete" and len(ra.args) >= 2 and ra.args[0].equals(red) and ra.args[1].equals(j + C(1)) and is_rmse(a, Rat.from_atom(ra)):
+            ref.append(a)
+    good = len(fin) == 1 and len(ref) == 1 and got.equals(Rat.from_atom(ref[0]) - Rat.from_atom(fin[0])) and ln.equals(sym("R") - C(2))
+    if good:
+        res.ok("U6", f"{fi.qualname}:improvement", "ip[j] = rmse(reduced without breakpoint j+1) - rmse(reduced) for j = 0..len(reduced)-3 (by value)")
+    else:
+        res.violation("U6", fi.module, fi.name, fi.node, "the per-breakpoint improvement is not rmse(reduced without d) - rmse(reduced) over the interior breakpoints d = 1..len(reduced)-2",
+                      f"ip[j] = {_short(got, 200)}; {_short(ln, 40)} values", "ip[j] = compute_global_rmse(points, np.delete(reduced, j+1)) - compute_global_rmse(points, reduced), len(reduced)-2 values",
+                      construct="mip improvement")
+    med = Rat.from_atom(m0)
+    want2 = anf.opaque("median", anf.f_abs(X - med), array=False)
+    second_ok = val.items[1].equals(want2)
+    if not second_ok:
+        # ... or the deviations are known element by element as well
+        m1 = single_atom(val.items[1])
+        if m1 is not None and m1.name == "median" and len(m1.args) == 1 and val.items[1].equals(Rat.from_atom(m1)):
+            ya = single_atom(m1.args[0])
+            Y = ev.vec_registry.get(ya.skey) if (ya is not None and ya.name == "vec") else m1.args[0]
+            try:
+                got2, ln2 = elem.element_of_value(ev, Y, j)
+                second_ok = got2.equals(anf.f_abs(got - med)) and ln2.equals(ln)
+            except elem.NoElement:
+                pass
+    if second_ok:
+        res.ok("U6", f"{fi.qualname}:median", "(median(ip), median(|ip - median(ip)|))")
+    else:
+        res.violation("U6", fi.module, fi.name, fi.node, "MIP is not (median of the improvements, their MAD)", _short(val), f"(median(ip), {_short(want2, 120)})", construct="mip median")
+    return True
+
+
 def _mip(rc: RuleCtx):
     res = rc.res
     fi = rc.func("evaluation.mip")
     mod = fi.module
+    if _mip_by_value(rc, fi):
+        return
     ev = rc.new_eval()
     pts = ev.point("points", True)
     red = ev.symbol("reduced", True)
